@@ -688,6 +688,12 @@ class Device(object):
             # traffic for another (nonexistent here) stream of the same connection
             return Pkt(W.A_WRTE if self.filler_n % 2 else W.A_OKAY, 0x7000 + (self.filler_n % 3), 0x6000 + (self.filler_n % 2), b'x' * (self.filler_n % 5) if self.filler_n % 2 else b'', kind='filler')
         if kind == 'unexpected':
+            if tgt is None and self.connected:
+                # the host has closed its stream and waits for the device's CLSE: WRITEs that were on their way keep coming instead
+                closing = [s for s in self.streams.values() if s.host_closed and not s.dev_clse_emitted and s.session == self.sessions]
+                if closing:
+                    self.probe('filler_wrte_after_host_close')
+                    return Pkt(W.A_WRTE, closing[-1].remote, closing[-1].local, b'late%d\n' % self.filler_n, kind='filler')
             if tgt is None or not self.connected:
                 return Pkt(W.A_OKAY, 0x7000, 0x6000, kind='filler')
             return Pkt(st.get('cmdword', W.A_OKAY), tgt.remote, tgt.local, kind='filler')
@@ -736,11 +742,25 @@ class Device(object):
             c['_done'] = True
             raw = self._corrupt(raw, p, c)
         p.raw = raw
+        sc = self.spec.get('stale_cnxn')
+        if sc and self.connected and p.kind != 'noise' and not self.sess.get('stale_cnxn_done') and self.sessions >= sc.get('session_min', 1) and self.emitted >= sc.get('after', 1) + 1:
+            # the answer to a CNXN of an earlier life of this connection (the host gave up on it and connected again over a link that
+            # keeps what is queued, as USB does) arrives now, in the middle of the new session
+            self.sess['stale_cnxn_done'] = True
+            banner = self.spec.get('banner', 'device::ro.product.name=sim;ro.product.model=SimAdb;features=shell_v2,cmd').encode()
+            self.connq.append(Pkt(W.A_CNXN, int(self.spec.get('version', W.A_VERSION)), self.maxdata, banner, ready=now, kind='noise'))
+            self.probe('stale_cnxn_mid_session')
         ne = self.spec.get('noise_every')
         if ne and self.connected and p.kind != 'noise' and self.emitted % ne == 0:
             # traffic for a stream nobody is reading (a closed stream's late packet, ids of another life of the connection)
             self.noise_n = getattr(self, 'noise_n', 0) + 1
-            nz = Pkt(W.A_OKAY if self.noise_n % 2 else W.A_WRTE, 0x7100 + self.noise_n % 3, 0x6100 + self.noise_n % 2, b'' if self.noise_n % 2 else b'late', ready=now, kind='noise')
+            ncl = self.spec.get('noise_clse_locals')
+            if ncl:
+                # late CLSEs for streams this host object is not reading (ids of an earlier life of the connection, say)
+                nz = Pkt(W.A_CLSE, 0x7300 + self.noise_n % 5, int(ncl[self.noise_n % len(ncl)]), b'', ready=now, kind='noise')
+                self.probe('noise_clse')
+            else:
+                nz = Pkt(W.A_OKAY if self.noise_n % 2 else W.A_WRTE, 0x7100 + self.noise_n % 3, 0x6100 + self.noise_n % 2, b'' if self.noise_n % 2 else b'late', ready=now, kind='noise')
             self.connq.append(nz)
             self.probe('noise_packet')
         return p
